@@ -69,6 +69,11 @@ CHECKS = {
     text="Held = Shroud exits 0 on every admitted description, every header is self-contained, every source and module compiles in dependency order and the link has no missing or duplicate symbol, for ~210 (quick) / ~700 (thorough) library x configuration builds and the 50 corpus configurations (those with upstream sources).",
     note="Trusted: gcc/g++/gfortran 12, CPython 3.12 headers, minilua headers (declarations per the Lua 5.3 manual). Unreachable here and reported as such: numpy- and MPI-dependent outputs, corpus inputs without library sources. Warnings are not events. Two known findings (forward.yaml python/lua) are listed.",
     design="DESIGN.md §2 C05"),
+ "C06": dict(
+    technique="runtime monitoring of call histories: Shroud-generated wrappers of an ownership library are built with ASan+UBSan(+LSan) and driven by synthesised Fortran, C and Python programs executing random valid histories (construct / factory result owned by caller, library or a free_pattern / by-value result / method / object argument / handle copy / release / release again / release through the memory destructor / array results pointer|allocatable x library|caller|pattern / capsule delete twice / string and vector results and arguments); after every step three monitors are compared with an ownership model: the library's live-object counter and DTOR/FREE trace records, the number of caller-owned heap blocks the sanitizer allocator still holds (__sanitizer_get_ownership over the library's registry), and sanitizer reports; upstream ownership/classes/strings/vectors drivers run under the same sanitizers",
+    text="Held = on every step of every history (quick: ~1100 steps over 28 histories in 3 driver languages, F_CFI off/on, debug off/on, namespaces, C_prefix, free_pattern declared before/after the plain factory) the destructor ran exactly for the objects the model says were released (never for library-owned or already released ones), pattern releases went through the pattern, the live-object count and the count of allocated caller-owned blocks matched the model at the marker after the step, and no ASan/UBSan/LSan report was produced.",
+    note="Trusted: gcc 12 sanitizer runtimes (quarantine keeps freed addresses from being reused within these short runs), the ownership model written from docs/pointers.rst / classes.rst / cwrapper.rst. Fortran finalisation at scope exit is not relied on (histories release explicitly). Python: +deref(allocatable), by-value class results and vector arguments are outside what the Python emitter supports and are left out. Six genuine defects found while building this check were repaired (fix: commits): reinterpret_cast in C memory destructor, copy_array helper missing for C, missing helper for vector->list, Python objects never destroyed on Python 3 (tp_dealloc), uninitialised destructor index of class results, owner(caller) arrays leaked after list conversion.",
+    design="DESIGN.md §2 C06"),
  "C04": dict(
     technique="offline checker over the artifacts of real Shroud executions: gfortran -fc-prototypes (C view of every bind(C) interface and derived type) vs clang -ast-dump=json (typedef-resolved C prototypes and struct fields) vs nm --defined-only, compared by interoperability class; SH_TYPE_* constants from the module vs gcc -E -dM",
     text="All modules emitted for the 50 corpus configurations and for generated libraries (every Fortran-capable shape, language c and c++, F_CFI off and on; random option/prefix/namespace combinations in the thorough tier): ~900 interfaces / ~1400 arguments / ~55 derived types / ~90 constants per quick run. Held = every binding label is defined by the objects, argument counts and order agree, every argument/result/field has the same interoperability class and passing mode, constants are equal.",
